@@ -125,14 +125,22 @@ func (mw MeshWriter) Write(mesh modeling.Mesh, writer io.Writer) error {
 		properties = append(properties, prop.Properties()...)
 	}
 
-	attributeLength := mesh.AttributeLength()
+	// A point cloud is the list of vertices its indices name: a filtered or
+	// reordered cloud shares the attribute arrays of its source. Every other
+	// topology references the vertex records from its own element.
+	vertexCount := mesh.AttributeLength()
+	pointIndices := mesh.Indices()
+	isPointCloud := mesh.Topology() == modeling.PointTopology
+	if isPointCloud {
+		vertexCount = pointIndices.Len()
+	}
 
 	header := Header{
 		Format: mw.Format,
 		Elements: []Element{
 			{
 				Name:       VertexElementName,
-				Count:      int64(attributeLength),
+				Count:      int64(vertexCount),
 				Properties: properties,
 			},
 		},
@@ -181,9 +189,13 @@ func (mw MeshWriter) Write(mesh modeling.Mesh, writer io.Writer) error {
 	spaceByte := []byte{' '}
 	newLineByte := []byte{'\n'}
 
-	for i := 0; i < attributeLength; i++ {
+	for i := 0; i < vertexCount; i++ {
+		vertex := i
+		if isPointCloud {
+			vertex = pointIndices.At(i)
+		}
 		for propI, prop := range builtWriters {
-			err = prop.Write(writer, i)
+			err = prop.Write(writer, vertex)
 			if err != nil {
 				return err
 			}
